@@ -168,9 +168,10 @@ INVARIANT TypeOK
 # (NTask, NKey, maxsize (-1 = None), CallsPer, FnSusp)
 TIERS = {
     "mini": [(2, 2, 1, 2, 1), (2, 2, -1, 1, 1)],
-    "quick": [(2, 2, 1, 2, 1), (2, 2, -1, 2, 1), (3, 2, 1, 1, 1), (2, 3, 2, 2, 1), (2, 2, 0, 1, 1)],
+    "quick": [(2, 2, 1, 2, 1), (2, 2, -1, 2, 1), (3, 2, 1, 1, 1), (2, 3, 2, 2, 1), (2, 2, 0, 1, 1),
+              (1, 4, 3, 6, 1)],      # one caller, six calls over four keys, maxsize 3: recency beyond two entries
     "thorough": [(3, 2, 1, 2, 2), (3, 3, 2, 2, 1), (2, 3, 2, 3, 2), (3, 2, -1, 2, 1), (4, 2, 1, 1, 1),
-                 (4, 3, 2, 1, 1), (2, 2, 0, 2, 2), (3, 3, 1, 2, 1)],
+                 (4, 3, 2, 1, 1), (2, 2, 0, 2, 2), (3, 3, 1, 2, 1), (1, 4, 3, 6, 1), (2, 4, 3, 3, 1)],
 }
 
 
